@@ -89,12 +89,4 @@ theorem newCallOut_rot_pos (cot now : Nat) (d : Int) (hd : 1 â‰¤ d) (hc : cot â‰
   rw [Int.tdiv_eq_ediv_of_nonneg h0]
   wheel_omega
 
-/-- **time_left is exact** (clause 2a): for the entry at cumulative rotation `D` of slot `s`,
-    `time_left(s, D) = dueOf s cot D - now` -/
-theorem timeLeft_eq (w : World) (s : Nat) (D : Int) (hs : s < N) :
-    timeLeft w s D = dueOf s w.cot D - w.now := by
-  unfold timeLeft dueOf
-  simp only []
-  split <;> wheel_omega
-
 end NV.C10
